@@ -4,24 +4,30 @@ Property theorems about the executable reader model `Reamber/Model/BMS.lean` (ti
 reamber/bms/{BMSMap,BMSChannel,BMSMapMeta}.py by the correspondence check and by the generated layout tables)
 against the by-the-book denotation `Reamber/Spec/BMS.lean`.  Helper lemmas: `Lemmas/BMS.lean`, `Lemmas/BMSTime.lean`.
 
-Full statement aimed at (kept visible; the theorems below are its proved parts):
+The full statement is now ONE theorem, `read_eq_denote`:
 
-  ∀ layout lines d, denote (bookLayout layout) lines = some d →
-    lanes in position order in the file (¬D05) → tempo positions grid-compatible (¬D22) →
-    ∃ c, read defaultGrid (layoutOf layout) lines = .ok c ∧ c.hits ~ d.hits ∧ c.holds ~ d.holds ∧ c.header = d.header
+  ∀ layout (LayoutOK: injective, columns < MAX_KEYS — the five generated layouts: `layouts_ok`) lines d,
+    denote layout lines = some d →
+    lanes in position order in the file (¬D05) → gridCompatible (grid 96) d.tempo (¬D22) →
+    ∃ hits holds, readNotes defaultGrid layout lines = .ok (hits, holds) ∧ hits ~ d.hits ∧ holds ~ d.holds ∧
+      ∀ c, read defaultGrid layout lines = .ok c → c.hits = hits ∧ c.holds = holds ∧ c.header = d.header
 
-Proved: the layout tables (`layouts_tie`, `layouts_wellformed`), the slot formula (`slot_position`), the times
-(`bms_times_partial`: TimingMap.offsets = timeAt for every constant-metronome tempo list whose re-derived positions
-are the original ones), the pairing (`lnobj_pairing_partial`: stack discipline = by-the-book pairing on a lane
-in position order), order independence of hits (`hits_order_independent`), header retention (`header_retained`),
-and the two counterexamples that make the hypotheses necessary (D05, D22).
-Missing for the full statement: the text-level bridge "events of the reader's line loop = objects of `lineObjs`"
-for whole files (proved per pair in `slot_position`), `stableArgsort` is a sorting permutation, and
-`gridCompatible → re-derived positions are the original ones` (K1, C10's domain; evaluated directly by the driver
-as `resnap_stable` on every case instead).
+assembled from: the level-wide bridge "reader events = by-the-book objects" (`events_eq`, per pair
+`pairEvent_eq_objEvent`; `laneEvs_events` for a lane, `tempoOf_events_perm` for the tempo channels), the pairing
+invariant (`pairing_invariant`, `lanes_independent`, `loop_final`), the reader's tempo list against the
+by-the-book one (`model_tempo_cases`: equal, or its tail when the first tempo object overrides the header tempo),
+the times (`bms_times`: gridCompatible ⇒ `TimingMap.offsets` as run = `timeAt`, through C10's
+`offsets_correct_fromBcSnap` and `stableArgsort_sortsAsc` — no re-derivation hypothesis left), the flattening of
+lanes (`flatHits_perm`), and the header (`header_retained`).
+Also: the layout tables (`layouts_tie`, `layouts_wellformed`), `slot_position`, `hits_order_independent`, and
+the two counterexamples that make the hypotheses necessary (D05, D22).
+Still outside (stated in `read_eq_denote`'s docstring): success of the final `tm.reseat()` inside `read` (C11's
+domain — `readNotes`, everything before it, is proved to succeed), the byte lexer shared by `read` and `denote`,
+and one layout on both sides (generated vs by-the-book tables are related by `layouts_tie`).
 -/
 import Reamber.Lemmas.BMS
 import Reamber.Lemmas.BMSTime
+import Reamber.Lemmas.BMSAssemble
 import Reamber.Props.C10
 
 namespace Reamber.BMS
@@ -139,6 +145,70 @@ theorem bms_times_partial (g : Array Rat) (M : Rat) (hM : 0 < M) (c0 : BcSnap) (
         · exact Or.inr ⟨h, h2⟩
     exact lookupOffset_eq_timeAtAux M hM q (hq q hqm).2 rest 0 c0 hc0 hrest hch hle
 
+/-- a tempo change as the 4/4 reader builds it: metronome 4, normalised position, positive tempo -/
+def bmsChange (c : BcSnap) : Bool :=
+  decide (c.met = 4) && decide (c.snap.met = some 4) && decide (0 < c.bpm) && decide (0 ≤ c.snap.measure) &&
+  decide (0 ≤ c.snap.beat) && decide (c.snap.beat < 4)
+
+theorem bmsChange_wf {c : BcSnap} (h : bmsChange c = true) : wfChange c = true ∧ c.met = 4 := by
+  simp only [bmsChange, Bool.and_eq_true, decide_eq_true_eq] at h
+  obtain ⟨⟨⟨⟨⟨h1, h2⟩, h3⟩, h4⟩, h5⟩, h6⟩ := h
+  refine ⟨?_, h1⟩
+  simp only [wfChange, Bool.and_eq_true, decide_eq_true_eq, h1, h2, h3, h4, h5, h6, and_true, true_and]
+  decide
+
+theorem metronomeOk_of_const (cs : List BcSnap) (h : ∀ c ∈ cs, c.met = 4) : metronomeOk cs = true := by
+  induction cs with
+  | nil => rfl
+  | cons a t ih =>
+    cases t with
+    | nil => rfl
+    | cons b r =>
+      simp only [metronomeOk, Bool.and_eq_true, Bool.or_eq_true, decide_eq_true_eq]
+      exact ⟨Or.inl ((h a (by simp)).trans (h b (by simp)).symm), ih (fun c hc => h c (by simp [hc]))⟩
+
+/-- **`TimingMap.offsets` on a 4/4 BMS tempo list = piecewise-linear integration of beat length.**
+
+For every ascending list `cs` of reader-built tempo changes that starts at measure 0 beat 0 and is
+grid-compatible on the shipped grid of 96 (¬D22) — no re-derivation hypothesis — `from_bpm_changes_snap(0, cs,
+reseat=False)` succeeds and `TimingMap.offsets`, exactly as the model runs it (its own `stableArgsort`, the
+backwards sweep, the un-permutation), answers every list of queries at non-negative positions (any order,
+duplicates) with `timeAt 0 cs`.  (`bms_times_partial`'s hypothesis `hst` discharged by C10's `bcsOfBco_rederive`
+through `offsets_correct_fromBcSnap`; the sorting permutation by `stableArgsort_sortsAsc`.) -/
+theorem bms_times (cs : List BcSnap) (hall : cs.all bmsChange = true) (hs : sortedSnaps cs = true)
+    (h0 : firstAtZero cs = true) (hgc : gridCompatible (grid defaultMaxDiv) cs = true)
+    (qs : List Snap) (hq : ∀ q ∈ qs, 0 ≤ q.measure ∧ 0 ≤ q.beat) :
+    ∃ tm, fromBcSnap 0 cs false = .ok tm ∧ offsets defaultGrid tm qs = .ok (qs.map (timeAt 0 cs)) := by
+  have hwf : wfChanges cs = true := by
+    simp only [wfChanges, List.all_eq_true] at hall ⊢
+    exact fun c hc => (bmsChange_wf (hall c hc)).1
+  have hm : metronomeOk cs = true :=
+    metronomeOk_of_const cs (fun c hc => (bmsChange_wf (List.all_eq_true.mp hall c hc)).2)
+  have hqok : ∀ q ∈ qs, queryOk cs q = true := by
+    intro q hqm
+    cases cs with
+    | nil => simp [firstAtZero] at h0
+    | cons c rest =>
+      simp only [firstAtZero, Bool.and_eq_true, decide_eq_true_eq] at h0
+      have := hq q hqm
+      simp only [queryOk, Snap.le, Snap.lt, Snap.eqv, h0.1, h0.2, Bool.and_eq_true, Bool.or_eq_true, decide_eq_true_eq]
+      refine ⟨?_, this.2⟩
+      rcases lt_or_eq_of_le this.1 with h | h
+      · exact Or.inl (Or.inl h)
+      · rcases lt_or_eq_of_le this.2 with h2 | h2
+        · exact Or.inl (Or.inr ⟨h, h2⟩)
+        · exact Or.inr ⟨h, h2⟩
+  have hgc' : gridCompatible defaultGrid.toList cs = true := by simpa [defaultGrid] using hgc
+  obtain ⟨tm, h1, h2⟩ := offsets_correct_fromBcSnap defaultGrid (gridOK_grid (by decide)) 0 cs hwf hs h0 hgc' hm
+    (stableArgsort Snap.lt qs) qs (stableArgsort_sortsAsc qs) hqok
+  exact ⟨tm, h1, h2⟩
+
+/-- non-vacuity of `bms_times`: header tempo, a change inside measure 1, a change on measure line 3 -/
+example :
+    let cs : List BcSnap := [⟨120, 4, ⟨0, 0, some 4⟩⟩, ⟨60, 4, ⟨1, 3 / 2, some 4⟩⟩, ⟨133, 4, ⟨3, 0, some 4⟩⟩]
+    cs.all bmsChange = true ∧ sortedSnaps cs = true ∧ firstAtZero cs = true := by
+  decide +kernel
+
 /-- non-vacuity of `bms_times_partial`: a two-change tempo list satisfying every hypothesis (grid 4) -/
 example :
     let c0 : BcSnap := ⟨120, 4, ⟨0, 0, some 4⟩⟩
@@ -255,6 +325,350 @@ theorem hits_order_independent (ctx : Ctx) (n₁ n₂ : List (Bytes × Bytes × 
   refine ⟨?_, rfl⟩
   apply List.Perm.append_right
   exact (List.reverse_perm _).trans (((laneEvs_perm k hp).map _).trans (List.reverse_perm _).symm)
+
+/-! ### the assembled statement -/
+
+theorem bmsChange_of_tempoOfObj (ex : Dict Rat) (b : Bool) (o : Obj) (c : BcSnap)
+    (ho : 0 ≤ o.snap.measure ∧ 0 ≤ o.snap.beat ∧ o.snap.beat < 4) (h : tempoOfObj ex b o = some c) :
+    bmsChange c = true ∧ c.snap.measure = o.snap.measure ∧ c.snap.beat = o.snap.beat := by
+  unfold tempoOfObj at h
+  simp only [Option.bind_eq_some_iff] at h
+  obtain ⟨bpm, _, h⟩ := h
+  by_cases hb : bpm ≤ 0
+  · simp [hb] at h
+  · simp only [hb, if_false, Option.some.injEq] at h
+    subst h
+    have hb' : 0 < bpm := not_le.mp hb
+    simp [bmsChange, hb', ho.1, ho.2.1, ho.2.2]
+
+theorem gridCompatible_tail {g : List Rat} {a : BcSnap} {rest : List BcSnap} (h : gridCompatible g (a :: rest) = true) :
+    gridCompatible g rest = true := by
+  cases rest with
+  | nil => rfl
+  | cons b r => exact (gridCompatible_cons h).2
+
+/-- the whole reader in terms of its parts -/
+theorem read_of_parts (g : Array Rat) (lay : Layout) (lines : List Bytes) (doc : Doc) (hdr : Header) (st : St)
+    (hdoc : parseDoc lines = .ok doc) (hhdr : readHeader doc.header = .ok hdr) (hb : 0 < hdr.bpm0)
+    (hst : foldlE applyEv (initSt hdr.bpm0) (events ⟨lay, hdr.lnEnd, hdr.exbpms, hdr.samples⟩ doc.notes) = .ok st)
+    (hits : List HitOut) (holds : List HoldOut) (tm : List BcOff) (cs : List BcSnap)
+    (ht : timedNotes g st = .ok (hits, holds, tm, cs)) :
+    readNotes g lay lines = .ok (hits, holds) ∧
+    ∀ c, read g lay lines = .ok c → c.hits = hits ∧ c.holds = holds ∧ c.header = hdr := by
+  have hb' : ¬ hdr.bpm0 ≤ 0 := not_le.mpr hb
+  constructor
+  · simp [readNotes, hdoc, hhdr, hb', hst, ht]
+  · intro c hc
+    simp only [read, hdoc, hhdr, hb', if_false, hst] at hc
+    unfold finishRead at hc
+    simp only [ht, bind, Except.bind] at hc
+    split at hc
+    · cases hc
+    · rename_i r hr
+      split at hr
+      · cases hr
+      · split at hr
+        · cases hr
+        · injection hr with hr
+          injection hc with hc
+          rw [← hc, ← hr]
+          exact ⟨rfl, rfl, rfl⟩
+
+/-- **`read` = `denote`: BMS reading places every object where the book says.**
+
+For every layout that is injective with columns below `MAX_KEYS` (`LayoutOK`; the five generated layouts are:
+`layouts_ok`), and every text that has a by-the-book meaning `d` (`denote`), whose lanes are in position order in
+the file (¬D05) and whose tempo list is grid-compatible on the shipped grid of 96 (¬D22): the reader — line
+classifier, header tables, the per-pair loop with its per-lane stacks, the measure-0 override, the stable sort,
+`from_bpm_changes_snap`, and `TimingMap.offsets` as the model runs it — produces, up to the order of rows, exactly
+the hits and holds of `d`: same columns, same samples, times `timeAt` of the by-the-book tempo list, hold lengths
+tail − head; and every chart `read` returns carries these rows and the header record of `d`.
+
+No hypothesis about events is left: "the reader's events are the by-the-book objects" is proved level-wide
+(`events_eq`, `laneEvs_events`, `tempoOf_events_perm`).  Still outside this theorem (hence the two-part
+conclusion): that the final `tm.reseat()` of `read` succeeds (C11's domain; `readNotes` — everything before it —
+is shown to succeed); the byte lexer is shared by `read` and `denote`; the layout is the same on both sides
+(`layouts_tie` relates generated and by-the-book tables). -/
+theorem read_eq_denote (lay : Layout) (hlay : LayoutOK lay) (lines : List Bytes) (d : Denotation)
+    (hden : denote lay lines = some d)
+    (hord : ∀ doc, parseDoc lines = .ok doc → LanesInOrder lay doc.notes)
+    (hgc : gridCompatible (grid defaultMaxDiv) d.tempo = true) :
+    ∃ hits holds, readNotes defaultGrid lay lines = .ok (hits, holds) ∧
+      (hits.map HitOut.toD).Perm d.hits ∧ (holds.map HoldOut.toD).Perm d.holds ∧
+      ∀ c, read defaultGrid lay lines = .ok c → c.hits = hits ∧ c.holds = holds ∧ c.header = d.header := by
+  -- take the denotation apart
+  unfold denote at hden
+  cases hdoc : parseDoc lines with
+  | error e => simp [hdoc] at hden
+  | ok doc =>
+  cases hhdr : readHeader doc.header with
+  | error e => simp [hdoc, hhdr] at hden
+  | ok hdr =>
+  simp only [hdoc, hhdr] at hden
+  cases hbody : denoteBody lay doc hdr with
+  | none => simp [hbody] at hden
+  | some body =>
+  obtain ⟨cs, shits, sholds⟩ := body
+  simp only [hbody, Option.some.injEq] at hden
+  subst hden
+  simp only at hgc ⊢
+  unfold denoteBody at hbody
+  by_cases hg : guardsOk lay doc hdr = true
+  swap
+  · simp [hg] at hbody
+  simp only [hg, if_true] at hbody
+  obtain ⟨cs', perLane, htempo, hlanes, rfl, rfl, rfl⟩ : ∃ cs' perLane,
+      denoteTempo lay doc.notes hdr.exbpms hdr.bpm0 = some cs' ∧
+      allSome (lay.lanes.map (denoteLane (dictGet? doc.header "LNOBJ".toList)
+        (fun id => (dictGet? hdr.samples id).getD []) doc.notes)) = some perLane ∧
+      cs = cs' ∧ shits = perLane.flatMap (·.1) ∧ sholds = perLane.flatMap (·.2) := by
+    split at hbody
+    · cases hbody
+    · rename_i cs' htempo
+      split at hbody
+      · cases hbody
+      · rename_i perLane hlanes
+        simp only [Option.some.injEq, Prod.mk.injEq] at hbody
+        exact ⟨cs', perLane, htempo, hlanes, hbody.1.symm, hbody.2.1.symm, hbody.2.2.symm⟩
+  obtain ⟨hok, hbpm⟩ := linesOk_of_guards lay doc hdr hg
+  have hinorder := hord doc hdoc
+  -- tempo objects
+  unfold denoteTempo at htempo
+  rw [channelObjs_eq lay.timeSig doc.notes hok, channelObjs_eq lay.timeSig doc.notes hok] at htempo
+  simp only at htempo
+  cases ht3 : allSome ((laneObjs doc.notes lay.bpmCh).map (tempoOfObj hdr.exbpms false)) with
+  | none => simp [ht3] at htempo
+  | some t3 =>
+  cases ht8 : allSome ((laneObjs doc.notes lay.exbpmCh).map (tempoOfObj hdr.exbpms true)) with
+  | none => simp [ht3, ht8] at htempo
+  | some t8 =>
+  simp only [ht3, ht8] at htempo
+  by_cases hstrict : strictAscBc (sortBcSnap (t3 ++ t8)) = true
+  swap
+  · simp [hstrict] at htempo
+  simp only [hstrict, if_true, Option.some.injEq] at htempo
+  obtain ⟨h3some, ht3eq⟩ := allSome_eq_some _ _ _ ht3
+  obtain ⟨h8some, ht8eq⟩ := allSome_eq_some _ _ _ ht8
+  -- lanes
+  obtain ⟨hPLsome, hPLeq⟩ := allSome_map_get _ _ _ hlanes
+  let PL : Bytes × Nat → List SHit × List SHold := fun lane =>
+    (denoteLane (dictGet? doc.header "LNOBJ".toList) (fun id => (dictGet? hdr.samples id).getD []) doc.notes lane).getD default
+  have hPL : ∀ lane ∈ lay.lanes, pairLane (dictGet? doc.header "LNOBJ".toList) (fun id => (dictGet? hdr.samples id).getD [])
+      lane.2 none (laneObjs doc.notes lane.1) = some (PL lane) := by
+    intro lane hl
+    have h1 : denoteLane (dictGet? doc.header "LNOBJ".toList) (fun id => (dictGet? hdr.samples id).getD []) doc.notes lane
+        = some (PL lane) := hPLsome lane hl
+    have h2 : denoteLane (dictGet? doc.header "LNOBJ".toList) (fun id => (dictGet? hdr.samples id).getD []) doc.notes lane =
+        (if strictAsc (laneObjs doc.notes lane.1) = true then
+          pairLane (dictGet? doc.header "LNOBJ".toList) (fun id => (dictGet? hdr.samples id).getD []) lane.2 none
+            (laneObjs doc.notes lane.1) else none) := by
+      unfold denoteLane
+      rw [channelObjs_eq lay.timeSig doc.notes hok]
+      dsimp only
+      rw [hinorder lane hl]
+    rw [h2] at h1
+    by_cases hs : strictAsc (laneObjs doc.notes lane.1) = true
+    · rw [if_pos hs] at h1; exact h1
+    · rw [if_neg hs] at h1; cases h1
+  -- the loop
+  obtain ⟨st', hst', hLanes, hNone, hbcs⟩ := loop_final lay hlay doc hdr hhdr hok h3some h8some PL hPL
+  -- the reader's tempo list
+  set ctx : Ctx := ⟨lay, hdr.lnEnd, hdr.exbpms, hdr.samples⟩ with hctx
+  have hperm : (tempoOf (events ctx doc.notes)).Perm (t3 ++ t8) := by
+    rw [ht3eq, ht8eq]
+    exact tempoOf_events_perm ctx doc.notes hok hlay.tempo_ne
+  have hY : ∀ y ∈ t3 ++ t8, bmsChange y = true ∧ 0 ≤ y.snap.measure ∧ 0 ≤ y.snap.beat := by
+    intro y hy
+    rw [ht3eq, ht8eq] at hy
+    rcases List.mem_append.mp hy with h | h
+    · obtain ⟨o, ho, hoy⟩ := List.mem_filterMap.mp h
+      have hp := laneObjs_pos doc.notes lay.bpmCh o ho
+      obtain ⟨a, b, c⟩ := bmsChange_of_tempoOfObj _ _ o y ⟨hp.1, hp.2.1, hp.2.2.1⟩ hoy
+      exact ⟨a, by rw [b]; exact hp.1, by rw [c]; exact hp.2.1⟩
+    · obtain ⟨o, ho, hoy⟩ := List.mem_filterMap.mp h
+      have hp := laneObjs_pos doc.notes lay.exbpmCh o ho
+      obtain ⟨a, b, c⟩ := bmsChange_of_tempoOfObj _ _ o y ⟨hp.1, hp.2.1, hp.2.2.1⟩ hoy
+      exact ⟨a, by rw [b]; exact hp.1, by rw [c]; exact hp.2.1⟩
+  have hhdrC : (⟨hdr.bpm0, defMet, ⟨0, 0, some defMet⟩⟩ : BcSnap) = ⟨hdr.bpm0, 4, ⟨0, 0, some 4⟩⟩ := by rw [defMet_eq]
+  rw [hhdrC] at hbcs
+  set hdrC : BcSnap := ⟨hdr.bpm0, 4, ⟨0, 0, some 4⟩⟩ with hhC
+  have hhdrChange : bmsChange hdrC = true := by simp [bmsChange, hdrC, hbpm]
+  set S := sortBcSnap (t3 ++ t8) with hS
+  have hSmem : ∀ y ∈ S, bmsChange y = true ∧ 0 ≤ y.snap.measure ∧ 0 ≤ y.snap.beat :=
+    fun y hy => hY y (mem_isort.mp hy)
+  have hcs : cs = hdrC :: S := htempo.symm
+  subst hcs
+  have hSsorted : sortedSnaps S = true := sortedSnaps_sortBcSnap _
+  have hcsSorted : sortedSnaps (hdrC :: S) = true := by
+    apply sortedSnaps_of_pairwise
+    refine List.pairwise_cons.mpr ⟨?_, sortedSnaps_pairwise hSsorted⟩
+    intro y hy
+    exact zero_le_snap (c := hdrC.snap) ⟨rfl, rfl⟩ (hSmem y hy).2
+  -- the tempo list handed to the timing engine, and its relation to the by-the-book list
+  obtain ⟨csM, hcsM, hMall, hMsorted, hM0, hMgc, hMtime⟩ :
+      ∃ csM, sortBcSnap (dropOverridden st'.bcsRev.reverse) = csM ∧ csM.all bmsChange = true ∧ sortedSnaps csM = true ∧
+        firstAtZero csM = true ∧ gridCompatible (grid defaultMaxDiv) csM = true ∧
+        ∀ q : Snap, 0 ≤ q.measure ∧ 0 ≤ q.beat → timeAt 0 csM q = timeAt 0 (hdrC :: S) q := by
+    rw [hbcs]
+    rcases model_tempo_cases hdrC _ _ hperm hstrict ⟨rfl, rfl⟩ (fun y hy => (hY y hy).2) with h | ⟨h, y0, rest, hrest, hy0⟩
+    · refine ⟨_, h, ?_, hcsSorted, by simp [firstAtZero, hdrC], hgc, fun _ _ => rfl⟩
+      simp only [List.all_cons, hhdrChange, Bool.true_and, List.all_eq_true]
+      exact fun y hy => (hSmem y hy).1
+    · refine ⟨_, h, ?_, hSsorted, ?_, gridCompatible_tail hgc, ?_⟩
+      · simp only [List.all_eq_true]
+        exact fun y hy => (hSmem y hy).1
+      · rw [hrest]; simp [firstAtZero, hy0.1, hy0.2]
+      · intro q hq
+        have hrest' : S = y0 :: rest := hrest
+        rw [hrest', hrest]
+        exact (timeAt_drop_zero hdrC y0 rest q ⟨rfl, rfl⟩ hy0 (zero_le_snap hy0 hq)).symm
+  -- positions of everything the lanes hold are non-negative
+  have hposPL : ∀ lane ∈ lay.lanes, (∀ h ∈ (PL lane).1, h.col = lane.2 ∧ (0 ≤ h.snap.measure ∧ 0 ≤ h.snap.beat)) ∧
+      (∀ l ∈ (PL lane).2, l.col = lane.2 ∧ (0 ≤ l.head.measure ∧ 0 ≤ l.head.beat) ∧ (0 ≤ l.tail.measure ∧ 0 ≤ l.tail.beat)) := by
+    intro lane hl
+    exact pairLane_forall (fun s => 0 ≤ s.measure ∧ 0 ≤ s.beat) _ _ lane.2 _ none _ _
+      (fun o ho => let hp := laneObjs_pos doc.notes lane.1 o ho; ⟨hp.1, hp.2.1⟩) (by intro p hp; cases hp) (hPL lane hl)
+  have hflatH : ∀ p ∈ flatHits st', 0 ≤ p.2.snap.measure ∧ 0 ≤ p.2.snap.beat := by
+    intro p hp
+    simp only [flatHits, List.mem_flatMap, List.mem_range, List.mem_map, List.mem_reverse] at hp
+    obtain ⟨k, _, h, hh, rfl⟩ := hp
+    by_cases hk : ∃ lane ∈ lay.lanes, lane.2 = k
+    · obtain ⟨lane, hl, rfl⟩ := hk
+      have : h ∈ (st'.lanes lane.2).hits.reverse := List.mem_reverse.mpr hh
+      rw [(hLanes lane hl).1] at this
+      obtain ⟨sh, hsh, rfl⟩ := List.mem_map.mp this
+      exact ((hposPL lane hl).1 sh hsh).2
+    · have hk' : ∀ lane ∈ lay.lanes, lane.2 ≠ k := fun lane hl e => hk ⟨lane, hl, e⟩
+      rw [hNone k hk'] at hh
+      cases hh
+  have hflatL : ∀ p ∈ flatHolds st', (0 ≤ p.2.head.snap.measure ∧ 0 ≤ p.2.head.snap.beat) ∧ (0 ≤ p.2.tail.measure ∧ 0 ≤ p.2.tail.beat) := by
+    intro p hp
+    simp only [flatHolds, List.mem_flatMap, List.mem_range, List.mem_map, List.mem_reverse] at hp
+    obtain ⟨k, _, h, hh, rfl⟩ := hp
+    by_cases hk : ∃ lane ∈ lay.lanes, lane.2 = k
+    · obtain ⟨lane, hl, rfl⟩ := hk
+      have : h ∈ (st'.lanes lane.2).holds.reverse := List.mem_reverse.mpr hh
+      rw [(hLanes lane hl).2] at this
+      obtain ⟨sh, hsh, rfl⟩ := List.mem_map.mp this
+      exact ((hposPL lane hl).2 sh hsh).2
+    · have hk' : ∀ lane ∈ lay.lanes, lane.2 ≠ k := fun lane hl e => hk ⟨lane, hl, e⟩
+      rw [hNone k hk'] at hh
+      cases hh
+  -- times
+  obtain ⟨tm, htm, hoffH⟩ := bms_times csM hMall hMsorted hM0 hMgc ((flatHits st').map (·.2.snap)) (by
+    intro q hq
+    obtain ⟨p, hp, rfl⟩ := List.mem_map.mp hq
+    exact hflatH p hp)
+  obtain ⟨tm2, htm2, hoffHead⟩ := bms_times csM hMall hMsorted hM0 hMgc ((flatHolds st').map (·.2.head.snap)) (by
+    intro q hq
+    obtain ⟨p, hp, rfl⟩ := List.mem_map.mp hq
+    exact (hflatL p hp).1)
+  obtain ⟨tm3, htm3, hoffTail⟩ := bms_times csM hMall hMsorted hM0 hMgc ((flatHolds st').map (·.2.tail)) (by
+    intro q hq
+    obtain ⟨p, hp, rfl⟩ := List.mem_map.mp hq
+    exact (hflatL p hp).2)
+  have e2 : tm2 = tm := by rw [htm] at htm2; injection htm2 with h; exact h.symm
+  have e3 : tm3 = tm := by rw [htm] at htm3; injection htm3 with h; exact h.symm
+  rw [e2] at hoffHead
+  rw [e3] at hoffTail
+  set T := timeAt 0 csM with hT
+  have htimed : timedNotes defaultGrid st' = .ok
+      ((flatHits st').map (fun p => (⟨p.1, p.2.sample, T p.2.snap⟩ : HitOut)),
+       (flatHolds st').map (fun p => (⟨p.1, p.2.head.sample, T p.2.head.snap, T p.2.tail - T p.2.head.snap⟩ : HoldOut)), tm, csM) := by
+    unfold timedNotes
+    simp only [hcsM, htm, liftT, bind, Except.bind]
+    have z1 : ∀ (l : List (Nat × HitS)), (l.zip (l.map (fun p => T p.2.snap))).map
+        (fun p => (⟨p.1.1, p.1.2.sample, p.2⟩ : HitOut)) = l.map (fun p => (⟨p.1, p.2.sample, T p.2.snap⟩ : HitOut)) :=
+      fun l => zip_map_self _ _ l
+    have z2 : ∀ (l : List (Nat × HoldS)), (l.zip ((l.map (fun p => T p.2.head.snap)).zip (l.map (fun p => T p.2.tail)))).map
+        (fun p => (⟨p.1.1, p.1.2.head.sample, p.2.1, p.2.2 - p.2.1⟩ : HoldOut)) =
+        l.map (fun p => (⟨p.1, p.2.head.sample, T p.2.head.snap, T p.2.tail - T p.2.head.snap⟩ : HoldOut)) :=
+      fun l => zip_map_self2 _ _ _ l
+    by_cases he : (flatHits st').isEmpty = true <;> by_cases hl : (flatHolds st').isEmpty = true
+    · have e1 := List.isEmpty_iff.mp he
+      have e2 := List.isEmpty_iff.mp hl
+      simp [e1, e2, pure, Except.pure]
+    · have e1 := List.isEmpty_iff.mp he
+      simp only [he, hl, if_true, if_false, Bool.false_eq_true, pure, Except.pure, hoffHead, hoffTail, List.map_map]
+      simp only [Function.comp_def]
+      rw [z2]
+      simp [e1]
+    · have e2 := List.isEmpty_iff.mp hl
+      simp only [he, hl, if_true, if_false, Bool.false_eq_true, pure, Except.pure, hoffH, List.map_map]
+      simp only [Function.comp_def]
+      rw [z1]
+      simp [e2]
+    · simp only [he, hl, if_false, Bool.false_eq_true, hoffH, hoffHead, hoffTail, List.map_map]
+      simp only [Function.comp_def]
+      rw [z1, z2]
+  obtain ⟨hrn, hrd⟩ := read_of_parts defaultGrid lay lines doc hdr st' hdoc hhdr hbpm hst' _ _ tm csM htimed
+  refine ⟨_, _, hrn, ?_, ?_, hrd⟩
+  · -- hits
+    have hTeq : ∀ p ∈ flatHits st', T p.2.snap = timeAt 0 (hdrC :: S) p.2.snap := fun p hp => hMtime _ (hflatH p hp)
+    have h1 := flatHits_perm lay hlay st' PL (timeAt 0 (hdrC :: S)) (fun lane hl => (hLanes lane hl).1)
+      (fun lane hl h hh => ((hposPL lane hl).1 h hh).1) hNone
+    rw [hPLeq]
+    simp only [List.map_map, List.flatMap_map]
+    refine List.Perm.trans (List.Perm.of_eq ?_) h1
+    apply List.map_congr_left
+    intro p hp
+    simp [HitOut.toD, hTeq p hp]
+  · have hTeq : ∀ p ∈ flatHolds st', T p.2.head.snap = timeAt 0 (hdrC :: S) p.2.head.snap ∧ T p.2.tail = timeAt 0 (hdrC :: S) p.2.tail :=
+      fun p hp => ⟨hMtime _ (hflatL p hp).1, hMtime _ (hflatL p hp).2⟩
+    have h1 := flatHolds_perm lay hlay st' PL (timeAt 0 (hdrC :: S)) (fun lane hl => (hLanes lane hl).2)
+      (fun lane hl h hh => ((hposPL lane hl).2 h hh).1) hNone
+    rw [hPLeq]
+    simp only [List.map_map, List.flatMap_map]
+    refine List.Perm.trans (List.Perm.of_eq ?_) h1
+    apply List.map_congr_left
+    intro p hp
+    simp [HoldOut.toD, (hTeq p hp).1, (hTeq p hp).2]
+
+/-- the five generated layouts satisfy what `read_eq_denote` asks of a layout -/
+theorem layouts_ok : ∀ n ∈ Generated.BMS.layoutNames, ∀ l, layoutOf n = some l → LayoutOK l := by
+  have key : ∀ n ∈ Generated.BMS.layoutNames, ∀ l, layoutOf n = some l →
+      ((l.lanes.map (·.1)).Nodup ∧ (l.lanes.map (·.2)).Nodup ∧ (∀ lane ∈ l.lanes, lane.2 < maxKeys) ∧
+       (∀ lane ∈ l.lanes, lane.1 ≠ l.bpmCh ∧ lane.1 ≠ l.exbpmCh) ∧ l.bpmCh ≠ l.exbpmCh) := by
+    decide +kernel
+  intro n hn l hl
+  obtain ⟨a, b, c, d, e⟩ := key n hn l hl
+  exact layoutOK_of l a b c d e
+
+/-- non-vacuity of `read_eq_denote`: a BME text with a long note, two hits and a sample table satisfies every
+hypothesis (meaning defined, lanes in position order, tempo list grid-compatible) -/
+example :
+    let lines := ["#BPM 120".toList, "#LNOBJ ZZ".toList, "#WAV01 k.wav".toList, "#00111:0100ZZ00".toList,
+                  "#00112:00010002".toList, "#00211:02".toList]
+    ∃ l d, layoutOf "BME" = some l ∧ denote l lines = some d ∧
+      (∀ doc, parseDoc lines = .ok doc → LanesInOrder l doc.notes) ∧
+      gridCompatible (grid defaultMaxDiv) d.tempo = true ∧ d.hits.length = 3 ∧ d.holds.length = 1 := by
+  intro lines
+  have h1 : (match layoutOf "BME" with
+      | some l => (match denote l lines with
+        | some d => decide (d.hits.length = 3 ∧ d.holds.length = 1 ∧ d.tempo.length = 1) &&
+            (match parseDoc lines with
+             | .ok doc => decide (∀ lane ∈ l.lanes, sortObjs (laneObjs doc.notes lane.1) = laneObjs doc.notes lane.1)
+             | .error _ => false)
+        | none => false)
+      | none => false) = true := by decide +kernel
+  cases hl : layoutOf "BME" with
+  | none => simp [hl] at h1
+  | some l =>
+    cases hd : denote l lines with
+    | none => simp [hl, hd] at h1
+    | some d =>
+      cases hdoc : parseDoc lines with
+      | error e => simp [hl, hd, hdoc] at h1
+      | ok doc =>
+        simp only [hl, hd, hdoc, Bool.and_eq_true, decide_eq_true_eq] at h1
+        refine ⟨l, d, rfl, hd, ?_, ?_, h1.1.1, h1.1.2.1⟩
+        · intro doc' hdoc'
+          injection hdoc' with e
+          subst e
+          exact h1.2
+        · have : d.tempo.length = 1 := h1.1.2.2
+          match hdt : d.tempo, this with
+          | [c], _ => rfl
 
 /-! ### header -/
 
